@@ -4,11 +4,12 @@ From V Require Import Model.SnapOps Model.TreeAssign Corr.Util.
 
 (* what can be read from the rewritten argument: the nesting, and for every leaf its value and whether its text is the
    canonical one (a hand-written leaf like 2+3 that survived is not) *)
-Inductive otree := OLeaf (z : Z) (canon : bool) | OSeq (k : skind) (l : list otree).
+Inductive otree := OLeaf (z : Z) (canon : bool) | OUnm (id : nat) | OSeq (k : skind) (l : list otree).
 
 Fixpoint shape_t (t : tree) : otree :=
   match t with
   | TLeaf z c => OLeaf z c
+  | TUnm i _ => OUnm i
   | TSeq k l => OSeq k (map shape_t l)
   end.
 Fixpoint shape_v (v : val) : otree :=
@@ -26,6 +27,7 @@ Fixpoint shape (r : rtree) : otree :=
 Fixpoint otree_eqb (a b : otree) {struct a} : bool :=
   match a, b with
   | OLeaf x c, OLeaf y d => Z.eqb x y && Bool.eqb c d
+  | OUnm i, OUnm j => Nat.eqb i j
   | OSeq k l, OSeq k' l' =>
       skind_eqb k k' &&
       (fix go (l m : list otree) : bool :=
